@@ -520,7 +520,7 @@ func (ex *Exec) evIndex(x *SIndex, env *Env) Val {
 	case SSlice:
 		et := base.Ty.Underlying().(*types.Slice).Elem()
 		es := sortOf(et)
-		h := ex.getHeap(st, heapArrName(es), ArrS(SInt, ArrS(SInt, es)))
+		h := ex.getHeap(st, heapArrName(et), ArrS(SInt, ArrS(SInt, es)))
 		return Val{T: Select(Select(h, SlBase(base.T)), Add(SlOff(base.T), ex.evInt(x.I, env))), Ty: et}
 	case SSeq:
 		return Val{T: Select(SeqArr(base.T), ex.evInt(x.I, env)), Ty: tyInt}
@@ -529,8 +529,8 @@ func (ex *Exec) evIndex(x *SIndex, env *Env) Val {
 			k := ex.ev(x.I, env)
 			key := ex.mapKey(k, mt.Key())
 			vs := sortOf(mt.Elem())
-			val := ex.getHeap(st, mapValName(vs), ArrS(SInt, ArrS(SInt, vs)))
-			dom := ex.getHeap(st, mapDomName(vs), ArrS(SInt, ArrS(SInt, SBool)))
+			val := ex.getHeap(st, mapValName(mt), ArrS(SInt, ArrS(SInt, vs)))
+			dom := ex.getHeap(st, mapDomName(mt), ArrS(SInt, ArrS(SInt, SBool)))
 			return Val{T: Ite(And(Neq(base.T, IntLit(0)), Select(Select(dom, base.T), key)), Select(Select(val, base.T), key), ex.zeroOf(vs)), Ty: mt.Elem()}
 		}
 	}
@@ -774,7 +774,8 @@ func (ex *Exec) evCall(x *SCall, env *Env) Val {
 		case SInt:
 			if mt, ok := a.Ty.Underlying().(*types.Map); ok {
 				vs := sortOf(mt.Elem())
-				dom := Select(ex.getHeap(st, mapDomName(vs), ArrS(SInt, ArrS(SInt, SBool))), a.T)
+				_ = vs
+				dom := Select(ex.getHeap(st, mapDomName(mt), ArrS(SInt, ArrS(SInt, SBool))), a.T)
 				return Val{T: ex.card(dom, a.T), Ty: tyInt}
 			}
 		}
@@ -818,18 +819,20 @@ func (ex *Exec) evCall(x *SCall, env *Env) Val {
 		}
 		key := ex.mapKey(arg(1), mt.Key())
 		vs := sortOf(mt.Elem())
-		dom := ex.getHeap(st, mapDomName(vs), ArrS(SInt, ArrS(SInt, SBool)))
+		_ = vs
+		dom := ex.getHeap(st, mapDomName(mt), ArrS(SInt, ArrS(SInt, SBool)))
 		return Val{T: And(Neq(m.T, IntLit(0)), Select(Select(dom, m.T), key)), Ty: tyBool}
 	case "dom":
 		m := arg(0)
 		mt := m.Ty.Underlying().(*types.Map)
 		vs := sortOf(mt.Elem())
-		return Val{T: Select(ex.getHeap(st, mapDomName(vs), ArrS(SInt, ArrS(SInt, SBool))), m.T), Ty: tySet}
+		_ = vs
+		return Val{T: Select(ex.getHeap(st, mapDomName(mt), ArrS(SInt, ArrS(SInt, SBool))), m.T), Ty: tySet}
 	case "vals":
 		m := arg(0)
 		mt := m.Ty.Underlying().(*types.Map)
 		vs := sortOf(mt.Elem())
-		return Val{T: Select(ex.getHeap(st, mapValName(vs), ArrS(SInt, ArrS(SInt, vs))), m.T), Ty: rawArrTy(vs)}
+		return Val{T: Select(ex.getHeap(st, mapValName(mt), ArrS(SInt, ArrS(SInt, vs))), m.T), Ty: rawArrTy(vs)}
 	case "visited":
 		// visited set of the enclosing map-range loop (ordinal optional)
 		if env.li == nil {
@@ -911,7 +914,7 @@ func (ex *Exec) evCall(x *SCall, env *Env) Val {
 		if es != SInt {
 			ex.specFail("seqof: element sort %s unsupported", es)
 		}
-		h := ex.getHeap(st, heapArrName(es), ArrS(SInt, ArrS(SInt, es)))
+		h := ex.getHeap(st, heapArrName(a.Ty.Underlying().(*types.Slice).Elem()), ArrS(SInt, ArrS(SInt, es)))
 		return Val{T: MkSeq(ex.D.Fn("seqshift", ArrS(SInt, SInt), Select(h, SlBase(a.T)), SlOff(a.T)), SlLen(a.T)), Ty: tySeq}
 	case "emptyseq":
 		return Val{T: MkSeq(ex.V.constArr(ex, ArrS(SInt, SInt), IntLit(0)), IntLit(0)), Ty: tySeq}
@@ -1103,13 +1106,13 @@ func (ex *Exec) checkFrame(env *Env, pos token.Pos) {
 				switch x.Fn {
 				case "elems":
 					sl := ex.ev(x.Args[0], penv)
-					n := heapArrName(sortOf(sl.Ty.Underlying().(*types.Slice).Elem()))
+					n := heapArrName(sl.Ty.Underlying().(*types.Slice).Elem())
 					allowed[n] = append(allowed[n], SlBase(sl.T))
 				case "entries":
 					m := ex.ev(x.Args[0], penv)
-					vs := sortOf(m.Ty.Underlying().(*types.Map).Elem())
-					allowed[mapDomName(vs)] = append(allowed[mapDomName(vs)], m.T)
-					allowed[mapValName(vs)] = append(allowed[mapValName(vs)], m.T)
+					fmt2 := m.Ty.Underlying().(*types.Map)
+					allowed[mapDomName(fmt2)] = append(allowed[mapDomName(fmt2)], m.T)
+					allowed[mapValName(fmt2)] = append(allowed[mapValName(fmt2)], m.T)
 				}
 			}
 		}
